@@ -128,10 +128,15 @@ const c08Probe = "write(\"|\" + toa([ga, gb, acc]) + \"|\\n\")"
 
 // c08Script joins the statements; after each one (except those marked noProbe:
 // carriers that do not exist in the twin) the globals are written out.
-func c08Script(stmts []string, skip, noProbe map[int]bool) string {
+func c08Script(stmts []string, skip, noProbe, join map[int]bool) string {
 	var sb strings.Builder
 	for i, s := range stmts {
 		if skip[i] {
+			continue
+		}
+		if join[i] {
+			// the next statement follows on the same line
+			sb.WriteString(s + " ")
 			continue
 		}
 		sb.WriteString(s + "\n")
@@ -165,8 +170,21 @@ func c08Binary(tb testing.TB, fs gen.FaultSession) string {
 			}
 		}
 	}
-	real := runCalc(tb, "file", c08Script(fs.Real, skipReal, dropped), "")
-	twin := runCalc(tb, "file", c08Script(fs.Twin, skipTwin, nil), "")
+	// several statements on one line: a failing one must not take the ones after it with it
+	join := map[int]bool{}
+	for i := len(gen.FaultPrelude); i+1 < len(fs.Real); i++ {
+		a, b := fs.Real[i], fs.Real[i+1]
+		if i%2 == 0 && dropped[i] && !skipReal[i] && !dropped[i+1] && !skipReal[i+1] && !join[i-1] &&
+			!strings.Contains(a, "\n") && !strings.Contains(b, "\n") && !gen.ReaderSafe(a) {
+			if one, perr := parser.Parse(a); perr == nil && len(one) == 1 {
+				if two, perr := parser.Parse(a + " " + b); perr == nil && len(two) == 2 {
+					join[i] = true
+				}
+			}
+		}
+	}
+	real := runCalc(tb, "file", c08Script(fs.Real, skipReal, dropped, join), "")
+	twin := runCalc(tb, "file", c08Script(fs.Twin, skipTwin, nil, nil), "")
 	if crashed(real) {
 		return fmt.Sprintf("the binary aborts on the session:\n%s", clipS(lastLines(real.out, 10)))
 	}
